@@ -235,9 +235,32 @@ func MainWithFacts(prop string, gen func(*Ctx) error, replay func(raw json.RawMe
 
 // ---- Coq term printers -------------------------------------------------
 
-func Hex(b []byte) string { return `(hx "` + hex.EncodeToString(b) + `")` }
-func N(n uint64) string   { return fmt.Sprintf("%d", n) }
-func Nat(n int) string    { return fmt.Sprintf("%d%%nat", n) }
+// Hex prints a byte string as a list of Init.Byte constructors ([x0a; xff]): elaborating a
+// string literal costs ~10 ms in coqc, a constructor list is far cheaper.
+func Hex(b []byte) string {
+	if len(b) == 0 {
+		return "(@nil byte)"
+	}
+	var sb strings.Builder
+	sb.Grow(5*len(b) + 2)
+	sb.WriteByte('[')
+	const digits = "0123456789abcdef"
+	for i, x := range b {
+		if i > 0 {
+			sb.WriteString("; ")
+		}
+		sb.WriteByte('x')
+		sb.WriteByte(digits[x>>4])
+		sb.WriteByte(digits[x&15])
+	}
+	sb.WriteByte(']')
+	return sb.String()
+}
+
+// HexStr is the string-literal form (hx "...").
+func HexStr(b []byte) string { return `(hx "` + hex.EncodeToString(b) + `")` }
+func N(n uint64) string      { return fmt.Sprintf("%d", n) }
+func Nat(n int) string       { return fmt.Sprintf("%d%%nat", n) }
 func Z(z int64) string {
 	if z < 0 {
 		return fmt.Sprintf("(%d)%%Z", z)
